@@ -753,6 +753,26 @@ fn handle(st: &mut State, req: &J) -> J {
             let merged = program_to_bytecode(env.get_program(), None);
             let n_updates = updates.lock().unwrap().len();
             let j = serde_json::to_value(&merged).unwrap();
+            // The tables a worker really ends up with: the updates the real Environment sent,
+            // applied in order to one real Executor, read back through the verification hook.
+            // (Without the hook: recomputed from the merged bytecode, as before.)
+            #[cfg(quiver_verif)]
+            let compat = {
+                let mut ex: Executor<NoEffect> = Executor::new(registry(), false, 0);
+                let sent: Vec<ProgramUpdate> = updates.lock().unwrap().drain(..).collect();
+                for u in sent {
+                    ex.update_program(u);
+                }
+                let (tc, fp, bp) = ex.verif_compatibility_tables();
+                json!({
+                    "type_compatibility": sets_to_json(tc),
+                    "canonical_tuples": compute_canonical_tuples(&merged.tuples),
+                    "function_param_compatibility": sets_to_json(fp),
+                    "builtin_param_compatibility": sets_to_json(bp),
+                    "from_executor": true,
+                })
+            };
+            #[cfg(not(quiver_verif))]
             let compat = compat_json(&merged);
             st.progs.push(Loaded { bytecode: merged });
             let entries: Vec<Option<usize>> = starts.lock().unwrap().clone();
